@@ -15,6 +15,89 @@ def H(name, tier="q", bounds=""):
 
 
 PROPS = {
+    "C06": {
+        "m": "specs.c06",
+        "k": [
+            H("c06::c06_instant_add_seconds", "q", "Instant::add with a seconds-only duration: any integral double |v| < 9e24 the duration admits (far beyond 2^53), receiver any instant: exact integer sum, range-checked"),
+            H("c06::c06_instant_add_nanoseconds", "t", "nanoseconds-only likewise"),
+            H("c06::c06_instant_add_hours", "t", "hours-only likewise"),
+        ],
+        "k_timeout": {"quick": 1500, "thorough": 3000},
+        "bounds": {"all": "Engine M: epoch_milliseconds for every instant; NormalizedTimeDuration difference/add_days for every operand in range; "
+                          "AddInstant and AddTime (PlainTime::add_to_time) for every receiver and every duration whose six fields are integral doubles with |field| < 2^53 - 1000; "
+                          "Engine K: one field at a time beyond 2^53"},
+        "outside": "several fields above 2^53 at once, the f64 -> i64 saturating casts above 2^63 ns in PlainTime::add, until/since balancing",
+    },
+    "C16": {
+        "m": None,
+        "k": [
+            H("c16::c16_gregory_year", "q", "gregory: any ISO date in 1999..=2001; fields consistent; from_partial(year, monthCode, day) rebuilds the ISO date"),
+            H("c16::c16_gregory_era_boundary", "q", "gregory via era + eraYear around the BCE/CE boundary (ISO years -1..=1)"),
+            H("c16::c16_buddhist_year", "q", "buddhist, 1999..=2001"),
+            H("c16::c16_roc_era_boundary", "q", "roc via era + eraYear, ISO 1911..=1912 (era boundary)"),
+            H("c16::c16_japanese_era_boundary", "t", "japanese via era + eraYear, ISO 2018..=2019 (heisei/reiwa)"),
+            H("c16::c16_coptic_year", "t", "coptic, 1999..=2001"),
+            H("c16::c16_ethiopic_year", "t", "ethiopic, 1999..=2001"),
+            H("c16::c16_indian_year", "t", "indian, 1999..=2001"),
+            H("c16::c16_persian_year", "t", "persian, 1999..=2001"),
+        ],
+        "k_timeout": {"quick": 2400, "thorough": 3600},
+        "bounds": {"all": "arithmetic calendars only, ISO dates in 2-3 year windows; one calendar per harness"},
+        "outside": "chinese, dangi, islamic (observational), islamic-umalqura (floating-point astronomy, unbounded search loops: no SAT encoding within reach); hebrew and the tabular islamic calendars; "
+                   "consecutive-day property; case-insensitive identifier parsing",
+    },
+    "C14": {
+        "m": "specs.c14",
+        "k": [],
+        "bounds": {"all": "Engine M over the real ZonedDateTime::start_of_day_with_provider / hours_in_day_with_provider / TimeZone::get_start_of_day / "
+                          "ZonedDateTime::add_as_instant MIR with a synthetic zone chosen by the solver: one transition at any second of 2000-06-15; "
+                          "day length: whole-hour offsets within +-12 h (gaps and overlaps up to 24 h), receiver any nanosecond of 2000-06-15; "
+                          "add: offsets any second count within +-12 h, receiver any nanosecond of 2000-06-13..17, days in -3..=3, hours in -72..=72, "
+                          "minutes in -4000..=4000, nanoseconds in -1e12..=1e12 (sign-uniform), other fields 0, loop unrolling 5 (unwinding obligations discharged)"},
+        "outside": "until/since (DifferenceZonedDateTime, NudgeToZonedTime), with_plain_time, months/years/weeks in add, Duration.round/total relative to a "
+                   "ZonedDateTime, two-transition zones, real IANA data; "
+                   "Kani harnesses for start_of_day/hours_in_day/add (harness/src/c14.rs) exist but CBMC does not finish them within 15 min",
+    },
+    "C19": {
+        "m": "specs.c19",
+        "k": [
+            H("c19::c19_zdt_microsecond", "t", "compiled-data ZonedDateTime::microsecond vs microsecond_with_provider: fixed-offset zone +05:30, instant any ns of year 2000"),
+            H("c19::c19_zdt_nanosecond", "t", "nanosecond likewise"),
+            H("c19::c19_zdt_millisecond", "t", "millisecond likewise"),
+            H("c19::c19_zdt_hour", "t", "hour likewise"),
+            H("c19::c19_zdt_minute", "t", "minute likewise"),
+            H("c19::c19_zdt_second", "t", "second likewise"),
+            H("c19::c19_zdt_year", "t", "year, zone -08:00"),
+            H("c19::c19_zdt_month", "t", "month"),
+            H("c19::c19_zdt_day", "t", "day"),
+            H("c19::c19_zdt_offset_nanoseconds", "t", "offset_nanoseconds"),
+            H("c19::c19_ffi_enums", "q", "temporal_capi enum conversions: every variant of RoundingMode, Unit, Disambiguation, OffsetDisambiguation"),
+            H("c19::c19_ffi_plain_time", "q", "temporal_capi PlainTime create/try_create + six accessors vs temporal_rs::PlainTime for every u8/u16 argument"),
+        ],
+        "k_timeout": {"quick": 1800, "thorough": 3000},
+        "bounds": {"all": "Engine M: every pub fn of src/builtins/compiled/*.rs present in the MIR dump is executed symbolically with its *_with_provider twin uninterpreted "
+                          "(calls exactly its own twin, own arguments in order + the process-wide provider, returns the twin's result; lock acquisition modelled as succeeding); "
+                          "Engine K: accessor values on fixed-offset zones for instants in year 2000, capi enum conversions and capi PlainTime"},
+        "outside": "PARTIAL: wrappers that post-process the twin's result are checked for the call only; the other FFI types and option-struct conversions; named zones (file system); Now::*; lock poisoning (C20)",
+    },
+    "C11": {
+        "m": None,
+        "k": [
+            H("c11::c11_date_writer", "q", "FormattableDate writer for every year in -999999..=999999 and month/day: decoded by a fixed-layout decoder, 4-digit iff 0..=9999"),
+            H("c11::c11_time_writer_auto", "q", "FormattableTime writer, precision Auto: every time and nanosecond 0..1e9 - fraction exact and minimal"),
+            H("c11::c11_time_writer_minute", "q", "precision Minute"),
+            H("c11::c11_time_writer_digit0", "q", "precision Digit(0)"),
+            H("c11::c11_time_writer_digit3", "q", "precision Digit(3): exactly three leading digits"),
+            H("c11::c11_time_writer_digit7", "t", "precision Digit(7)"),
+            H("c11::c11_time_writer_digit9", "t", "precision Digit(9)"),
+            H("c11::c11_offset_round_trip", "q", "UtcOffset: from_str of the canonical text then to_string, every +-HH:MM"),
+            H("c11::c11_enum_names", "q", "Display -> FromStr -> Display for every variant of Unit, RoundingMode, ArithmeticOverflow, Disambiguation, OffsetDisambiguation, DisplayCalendar/Offset/TimeZone"),
+        ],
+        "k_timeout": {"quick": 1800, "thorough": 3000},
+        "bounds": {"all": "writers into a 40-byte sink; digit loops unwound 12"},
+        "outside": "PARTIAL: the ixdtf crate's text -> record step is not executed (DESIGN.md cut 4); record -> value halves (parser stub), duration / year-month / month-day / "
+                   "zoned writers, TimeZone identifier and MonthCode round trips are not built yet",
+    },
     "C18": {
         "m": None,
         "k": [
@@ -50,40 +133,41 @@ PROPS = {
         "outside": "PARTIAL: local-time -> candidate records (v2_estimate_tz_pair), POSIX footer evaluation, real zoneinfo files, provider cache purity, file I/O and the identifier check are not covered yet",
     },
     "C13": {
-        "m": None,
-        "k": [
-            H("c13::c13_wall_to_instant_3h", "q", "synthetic zone, one transition at any second of 2000-06-15, whole-minute offsets before/after in +-3 h (gaps/overlaps up to 6 h), local date-time 2000-06-13..17 at ns resolution, all 4 disambiguations"),
-            H("c13::c13_wall_to_instant_26h", "q", "same with offsets any second count in +-26 h (gaps/overlaps up to 52 h)"),
-            H("c13::c13_instant_to_wall", "q", "same zones, instant anywhere in 2000-06-14..16: wall-clock reading = instant + offset in force"),
-        ],
-        "k_timeout": {"quick": 1800, "thorough": 3000},
-        "bounds": {"all": "one-transition synthetic zones with solver-chosen transition second and offsets; receiver dates in a 5-day window around the transition"},
-        "outside": "offset-option handling (InterpretISODateTimeOffset), offset extraction from parsed strings, fixed-offset zones, real IANA data (see C15), two-transition zones",
-    },
-    "C06": {
-        "m": "specs.c06",
+        "m": "specs.c13",
         "k": [],
-        "bounds": {"all": "Engine M: epoch_milliseconds for every instant; NormalizedTimeDuration difference/add_days for every operand in range; "
-                          "AddInstant and AddTime (PlainTime::add_to_time) for every receiver and every duration whose six fields are integral doubles with |field| < 2^53 - 1000"},
-        "outside": "duration fields at or above 2^53 (in particular the f64 -> i64 saturating casts above 2^63 ns in PlainTime::add) and until/since balancing: Kani harnesses, not built yet",
+        "bounds": {"all": "Engine M over the real TimeZone::get_epoch_nanoseconds_for / disambiguate_possible_epoch_nanos / get_iso_datetime_for MIR with a synthetic zone chosen by the solver: "
+                          "one transition at any second of 2000-06-15, offsets before/after any second count with |offset| < 24 h (gaps and overlaps up to 48 h), "
+                          "every local time of 2000-06-15 at nanosecond resolution / every instant of 2000-06-14..16, all four disambiguations"},
+        "outside": "offset option (InterpretISODateTimeOffset), offsets parsed from strings, fixed-offset zones, two-transition zones, real IANA data (C15); "
+                   "Kani harnesses for the same functions exist (harness/src/c13.rs) but CBMC does not finish them within 15 min",
     },
     "C12": {
-        "m": None,
+        "m": "specs.c12",
         "k": [
             H("c12::c12_offset_ascii_6", "q", "UtcOffset::from_str on every ASCII string of <= 6 bytes vs the minute-precision UTC offset grammar"),
             H("c12::c12_offset_ascii_8", "t", "same, <= 8 bytes (reaches the sub-minute suffix forms)"),
             H("c12::c12_offset_non_ascii", "q", "'+' X '1:00' and '+1' X ':00' with X any Unicode scalar value (non-ASCII numerals must be rejected, no panic)"),
             H("c12::c12_month_code", "q", "MonthCode::try_from_utf8 on every byte string of <= 5 bytes"),
-            H("c12::c12_tz_identifier_5", "q", "TimeZone::try_from_identifier_str on every ASCII string of <= 5 bytes vs offset | Z | IANA-name shape"),
+            H("c12::c12_tz_identifier_4", "q", "TimeZone::try_from_identifier_str on every ASCII string of <= 4 bytes vs offset | Z | IANA-name shape"),
+            H("c12::c12_tz_identifier_5", "t", "same, <= 5 bytes"),
         ],
         "k_timeout": {"quick": 1500, "thorough": 3000},
-        "bounds": {"all": "repo-owned character parsers only, strings up to the stated byte lengths; loops unwound to length + slack with unwinding assertions on"},
-        "outside": "PARTIAL: the ixdtf crate's character-level grammar (text -> parse record) is not executed (DESIGN.md cut 4); per-type post-parse rules over "
-                   "arbitrary records are not built yet; longer strings; Calendar::from_utf8 case-insensitivity",
+        "bounds": {"all": "Engine K: repo-owned character parsers only, strings up to the stated byte lengths; loops unwound to length + slack with unwinding assertions on. "
+                          "Engine M (record level): the real post-parse code of Instant / PlainTime / PlainDateTime / PlainDate FromStr (parse_instant, parse_date_time, parse_time, "
+                          "IsoTime::from_time_record, the FromStr bodies) over *every* parse record ixdtf's grammar can return for a string without annotations: year -999999..=999999, "
+                          "valid month/day, any time incl. :60, fractions of 1..=12 digits, offset +-hh:mm:ss.f or Z; the date kernels beyond Temporal's range enter through "
+                          "contracts discharged by the C12.lemma jobs (years +-1000001)"},
+        "outside": "PARTIAL: the ixdtf crate's character-level grammar (text -> parse record) is not executed (external crate; its contract is an assumption of the "
+                   "record-level jobs, DESIGN.md cut 4); annotations (calendar, time zone, critical flags) and the annotation handler; PlainYearMonth / PlainMonthDay / "
+                   "ZonedDateTime / Duration strings at record level; longer strings for the character parsers; Calendar::from_utf8 case-insensitivity",
     },
     "C04": {
         "m": "specs.c04",
-        "k": [],
+        "k": [
+            H("c04::c04_date_add_api_2000", "t", "PlainDate::add (API level): receiver any date in 1999..=2001, duration years 0..1, months 0..13, weeks 0..2, days 0..40, hours 0..60 times a common sign, both overflow modes"),
+            H("c04::c04_date_subtract_api_2000", "t", "PlainDate::subtract(-d) on the same space"),
+        ],
+        "k_timeout": {"quick": 2400, "thorough": 3600},
         "bounds": {"all": "Engine M over the real AddISODate / DifferenceISODate / BalanceISOYearMonth MIR: every representable receiver date (cycle-decomposed years), "
                           "durations with |years| <= 600000, |weeks| <= 3e7 and months/days such that the intermediate year is within +-300000 and the target day within +-3e8; "
                           "diff: every pair of representable dates, largestUnit day/week (month/year: see inconclusive notes), loops unrolled 14 with unwinding obligations; "
@@ -111,8 +195,9 @@ PROPS = {
             H("c09::c09_valid_days_to_seconds", "t", "days, hours, minutes, seconds all symbolic at once"),
             H("c09::c09_valid_seconds_to_nanos", "t", "seconds .. nanoseconds all symbolic at once"),
             H("c09::c09_valid_days_and_nanos", "q", "days and nanoseconds: arbitrary finite integral doubles of any sign and magnitude"),
+            H("c09::c09_add_result_valid_near_cap", "q", "Duration::add of two nanosecond-only durations, both any integral double below 9.1e24: Ok => the result is a valid duration and the exact sum is below 2^53 s"),
             H("c09::c09_sign_ops", "q", "negated/abs/sign/is_zero: ten fields 0..=1000 times a symbolic sign"),
-            H("c09::c09_compare_no_relative", "q", "compare(None): days, microseconds, nanoseconds in +-100000 on both sides (unbalanced), order of exact i128 totals"),
+            H("c09::c09_compare_no_relative", "t", "compare(None): microseconds and nanoseconds in +-100000 on both sides (unbalanced), order of exact i128 totals"),
         ],
         "k_timeout": {"quick": 1500, "thorough": 3000},
         "bounds": {"all": "fields are symbolic doubles constrained to finite integral values (any magnitude for the validity harnesses); loops over the 10 fields unwound 12"},
@@ -146,11 +231,22 @@ PROPS = {
     },
     "C03": {
         "m": "specs.c03",
-        "k": [],
+        "k": [
+            # wide-input harnesses of other properties, run here for Kani's own checks only (overflow, unwrap, index,
+            # unreachable): their role assertions belong to their own property and are ignored under C03
+            H("c12::c12_offset_non_ascii", "q", "offset parser on '+' X '1:00' / '+1' X ':00', X any Unicode scalar value"),
+            H("c12::c12_offset_ascii_6", "q", "offset parser on every ASCII string of <= 6 bytes"),
+            H("c12::c12_month_code", "q", "MonthCode::try_from_utf8 on every byte string of <= 5 bytes"),
+            H("c17::c17_date_from_partial_2000", "q", "PlainDate::from_partial: every month/monthCode/day combination incl. out-of-range months with agreeing codes"),
+            H("c17::c17_time_from_partial", "q", "PlainTime::from_partial over all field subsets and values"),
+            H("c10::c10_diff_settings", "q", "every option combination into GetDifferenceSettings"),
+            H("c09::c09_valid_days_and_nanos", "q", "Duration::new with days and nanoseconds any finite integral double"),
+        ],
+        "k_timeout": {"quick": 1800, "thorough": 3000},
         "bounds": {"all": "Engine M (debug semantics: every overflow/division/index assert, assert!, unreachable!, unwrap is an obligation): "
                           "IsoDate::new_with_overflow for every i32 year and u8 month/day; IsoDateTime::from_epoch_nanos for every instant in range and "
                           "|offset| <= 1e15 ns; Unit::to_maximum_rounding_increment for every Unit; plus the panic obligations of every other Engine-M job (C01, C02, C07)"},
-        "outside": "string parsers, time-zone providers, float-based duration code and temporal_capi: Kani harnesses, not built yet",
+        "outside": "the ixdtf grammar, time-zone providers with irregular data, float-based duration rounding and temporal_capi beyond C19's harnesses",
     },
     "C07": {
         "m": "specs.c07",
@@ -165,9 +261,15 @@ PROPS = {
     },
     "C01": {
         "m": "specs.c01",
-        "k": [],
+        "k": [
+            H("c01::c01_iso_getters_2000", "q", "ISO-branch getters (day_of_week, day_of_year, week_of_year, year_of_week, days_in_month, days_in_year, in_leap_year): any date in 1999..=2001"),
+            H("c01::c01_iso_getters_1970", "t", "same, 1969..=1972"),
+            H("c01::c01_iso_getters_1900", "t", "same, 1899..=1901 (non-leap century)"),
+            H("c01::c01_iso_getters_neg", "t", "same, years -1..=1"),
+        ],
+        "k_timeout": {"quick": 1800, "thorough": 3000},
         "bounds": {"all": "Engine M: every epoch day in -100000001..=100000001 and every year -271821..=275760 (chunked); "
                           "balance: day offsets |day| <= 200000010 with the target day inside the range"},
-        "outside": "calendar-library getters (day_of_week, week_of_year, ...) are decided by Kani harnesses in year windows only",
+        "outside": "calendar-library getters (day_of_week, week_of_year, ...) are decided by Kani harnesses in year windows only (the library code is the same for every year; years outside the windows are not claimed)",
     },
 }
